@@ -83,6 +83,71 @@ def line_matches(expected, actual):
     return True
 
 
+def _parse_groups(lines):
+    """reference output -> list of items: ("line", text) | ("group", [chunk, ...]) with chunk = list of lines"""
+    items = []
+    i = 0
+    n = len(lines)
+    while i < n:
+        l = lines[i]
+        if l == "<<scope":
+            depth = 1
+            chunks = []
+            i += 1
+            while i < n and depth > 0:
+                l = lines[i]
+                if l == "<<scope":
+                    depth += 1
+                elif l == ">>scope":
+                    depth -= 1
+                elif l == "<<obj":
+                    if depth == 1:
+                        chunks.append([])
+                elif chunks:
+                    chunks[-1].append(l)
+                else:
+                    chunks.append([l])
+                i += 1
+            items.append(("group", chunks))
+        elif l in ("<<obj", ">>scope"):
+            i += 1
+        else:
+            items.append(("line", l))
+            i += 1
+    return items
+
+
+def _match_group(chunks, got, pos):
+    """can got[pos:] start with some permutation of chunks? returns new pos or None"""
+    if not chunks:
+        return pos
+    for k, ch in enumerate(chunks):
+        if pos + len(ch) <= len(got) and all(line_matches(e, g) for e, g in zip(ch, got[pos:pos + len(ch)])):
+            r = _match_group(chunks[:k] + chunks[k + 1:], got, pos + len(ch))
+            if r is not None:
+                return r
+    return None
+
+
+def match_output(expected, got):
+    pos = 0
+    for kind, val in _parse_groups(expected):
+        if kind == "line":
+            if pos >= len(got):
+                return "interpreter output ends after %d lines, reference continues with %r" % (len(got), val)
+            if not line_matches(val, got[pos]):
+                return "echo #%d: reference %r, interpreter %r" % (pos + 1, val, got[pos])
+            pos += 1
+        else:
+            r = _match_group(val, got, pos)
+            if r is None:
+                return "echo #%d..: destructor output at a scope exit matches no order of the dying objects %s; interpreter continues %s" % (pos + 1, val, got[pos:pos + 8])
+            pos = r
+    if pos != len(got):
+        return "interpreter prints %d extra lines: %s" % (len(got) - pos, got[pos:pos + 6])
+    return None
+
+
 def compare(exp, res):
     """exp: oracle record, res: prog_runner result. Returns None if they agree, else a message."""
     if exp["status"] == "undef":
@@ -98,11 +163,9 @@ def compare(exp, res):
         if shot["status"] != "ok":
             return "reference: runs to completion printing %s; interpreter: %s %s" % (exp["out"], shot["status"], shot.get("what", "").strip())
         got = shot["echo"]
-        if len(got) != len(exp["out"]):
-            return "reference prints %d lines %s; interpreter prints %d lines %s" % (len(exp["out"]), exp["out"], len(got), got)
-        for i, (e, g) in enumerate(zip(exp["out"], got)):
-            if not line_matches(e, g):
-                return "echo #%d: reference %r, interpreter %r (all: %s vs %s)" % (i + 1, e, g, exp["out"], got)
+        err = match_output(exp["out"], got)
+        if err:
+            return err + " (reference %s, interpreter %s)" % (exp["out"], got)
         return None
     kind = exp["status"][4:]
     if shot["status"] != "runtime":
